@@ -20,10 +20,17 @@ func createDynForEMAThroughputSampler(c *config.EMAThroughputSamplerConfig) *dyn
 	}
 	clusterSize := 1 // Will be updated by SetClusterSize if needed
 
+	interval := time.Duration(c.AdjustmentInterval)
+	if interval < time.Millisecond {
+		// dynsampler refuses shorter intervals (Start returns an error before it
+		// allocates its maps); 0 selects its default
+		interval = 0
+	}
+
 	dynsamplerInstance := &dynsampler.EMAThroughput{
 		GoalThroughputPerSec: c.GoalThroughputPerSec / clusterSize,
 		InitialSampleRate:    c.InitialSampleRate,
-		AdjustmentInterval:   time.Duration(c.AdjustmentInterval),
+		AdjustmentInterval:   interval,
 		Weight:               c.Weight,
 		AgeOutValue:          c.AgeOutValue,
 		BurstDetectionDelay:  c.BurstDetectionDelay,
